@@ -37,7 +37,7 @@ ASSUMPTIONS = [
 ]
 
 BOUNDS = {
-    'quick': [dict(A=1, S=3, Lmax=4), dict(A=2, S=2, Lmax=2), dict(A=2, S=2, Lmin=3, Lmax=3, shell=False), dict(A=1, S=2, Lmin=5, Lmax=6, shell=False)],
+    'quick': [dict(A=1, S=3, Lmax=4), dict(A=2, S=2, Lmax=2), dict(A=2, S=2, Lmin=3, Lmax=3, shell=False), dict(A=2, S=2, Lmin=4, Lmax=4, shell=False, only_n=[2]), dict(A=1, S=2, Lmin=5, Lmax=6, shell=False)],
     'thorough': [dict(A=1, S=3, Lmax=5), dict(A=2, S=2, Lmax=3), dict(A=1, S=2, Lmin=5, Lmax=8, shell=False), dict(A=2, S=2, Lmin=4, Lmax=4, shell=False), dict(A=1, S=3, Lmin=6, Lmax=6, shell=False)],
 }
 SPLIT_LMAX = {'quick': 40, 'thorough': 120}
@@ -66,7 +66,7 @@ def jumps_or_empty(tr, m=0):
         raise
 
 
-def check_trace(trace, S):
+def check_trace(trace, S, only_n=None):
     viols = []
     keys = []
     L, A = len(trace), len(trace[0])
@@ -89,6 +89,8 @@ def check_trace(trace, S):
     nmax = min(len(rows), L - 1)
     evals = 0
     for n in range(1, nmax + 1):
+        if only_n and n not in only_n:
+            continue
         evals += 1
         try:
             parts = tr.split(n)
@@ -167,6 +169,12 @@ def check_trace(trace, S):
             continue
         if sum(counts) > len(total_jumps) or any(c > len(total_jumps) for c in counts):
             viols.append(('part-jump-counts-exceed-total', f'n_parts={n} counts={counts} total={len(total_jumps)}'))
+        whole_pairs = Counter((r[0], r[1], r[2]) for r in total_jumps)
+        parts_pairs = Counter()
+        for p in parts:
+            parts_pairs.update((r[0], r[1], r[2]) for r in jumps_or_empty(p))
+        if any(v > whole_pairs[k] for k, v in parts_pairs.items()):
+            viols.append(('part-has-a-jump-the-whole-does-not-have', f'n_parts={n}: per (atom, origin, destination) parts={dict(parts_pairs)} whole={dict(whole_pairs)}'))
         if total_jumps:
             from gemdat.jumps import Jumps
 
@@ -251,7 +259,7 @@ def run_shard(shard) -> Result:
     for k, trace in enumerate(traces.iter_shard(shard)):
         if k % 128 == 0:
             impl.clear_weak_caches()
-        viols, key, evals = check_trace(trace, S)
+        viols, key, evals = check_trace(trace, S, shard.get('only_n'))
         res.evals += evals
         res.traces += 1
         res.outcome(hash(key))
